@@ -204,6 +204,37 @@ func (st *State) solve(extra []*Term, wantModel bool) (SatResult, Model) {
 		st.job.brute++
 		return r, m
 	}
+	if st.hasFPArith(rel, extra) {
+		// cheap sound pre-check: floating-point arithmetic results abstracted to free values (see Solver.abstractFP)
+		if st.absSolver == nil {
+			if av, err := NewSolver(st.solver.kind, st.tp, st.solver.timeout); err == nil {
+				av.abstractFP = true
+				st.absSolver = av
+			}
+		}
+		if av := st.absSolver; av != nil && !av.dead {
+			for _, c := range rel {
+				av.define(c)
+			}
+			for _, e := range extra {
+				av.define(e)
+			}
+			av.Push()
+			for _, c := range rel {
+				av.AssertDefined(c)
+			}
+			for _, e := range extra {
+				av.AssertDefined(e)
+			}
+			r := av.Check()
+			av.Pop()
+			if r == Unsat && !av.dead {
+				st.job.noteQuery(r)
+				st.job.fpAbstracted++
+				return Unsat, nil
+			}
+		}
+	}
 	sv := st.solver
 	for _, c := range rel {
 		sv.define(c)
@@ -325,6 +356,41 @@ func (st *State) bruteForce(rel, extra []*Term, wantModel bool) (SatResult, Mode
 }
 
 // solveFallback re-discharges an obligation that came back unknown: other solvers, fresh process, 4x the time.
+// hasFPArith reports whether any of the terms contains floating-point arithmetic (memoised per term id).
+func (st *State) hasFPArith(rel, extra []*Term) bool {
+	if st.fpArith == nil {
+		st.fpArith = map[int]bool{}
+	}
+	var walk func(t *Term) bool
+	walk = func(t *Term) bool {
+		if v, ok := st.fpArith[t.id]; ok {
+			return v
+		}
+		v := t.op == OpFPAdd || t.op == OpFPSub || t.op == OpFPMul || t.op == OpFPDiv
+		if !v {
+			for i := 0; i < t.n; i++ {
+				if walk(t.args[i]) {
+					v = true
+					break
+				}
+			}
+		}
+		st.fpArith[t.id] = v
+		return v
+	}
+	for _, c := range rel {
+		if walk(c) {
+			return true
+		}
+	}
+	for _, e := range extra {
+		if walk(e) {
+			return true
+		}
+	}
+	return false
+}
+
 func (st *State) solveFallback(extra []*Term) (SatResult, Model) {
 	kinds := []string{"z3", "cvc5"}
 	if st.solver.kind != "z3-new" {
@@ -622,6 +688,7 @@ type Job struct {
 	brute           int
 	pruned          int
 	fallbacks       int
+	fpAbstracted    int // obligations/branches decided unsat on the floating-point abstraction
 	race            bool
 	raceCount       int
 	labels          []string
